@@ -30,11 +30,13 @@ pub struct RunCfg {
     pub budgets: Option<Vec<usize>>,
     /// evaluate unrelated definitions first
     pub prefix: bool,
+    /// force a collection after every form and record the number of cells in use
+    pub live: bool,
 }
 
 impl RunCfg {
     pub fn plain() -> RunCfg {
-        RunCfg { name: "plain".into(), sched: Sched::None, budgets: None, prefix: false }
+        RunCfg { name: "plain".into(), sched: Sched::None, budgets: None, prefix: false, live: false }
     }
     pub fn to_json(&self) -> Value {
         json!({"name": self.name, "sched": format!("{:?}", self.sched),
@@ -250,6 +252,24 @@ pub fn run_session(forms: &[Cell], cfg: &RunCfg) -> Vec<Value> {
         j["maxsp"] = json!(s.vm.verif.max_sp);
         j["instr"] = json!(s.vm.verif.instr);
         j["cap"] = json!(s.vm.verif_stack().len());
+        if let Outcome::Err(_) = &o {
+            if let Some(st) = s.vm.last_stacktrace() {
+                let frames: Vec<String> = st
+                    .frames
+                    .iter()
+                    .map(|f| match (&f.name, &f.desc) {
+                        (Some(n), _) => n.clone(),
+                        (None, Some(d)) => format!("{:#}", d),
+                        (None, None) => "?".to_string(),
+                    })
+                    .collect();
+                j["tr"] = json!(frames);
+            }
+        }
+        if cfg.live && !s.dead {
+            s.vm.verif_force_gc();
+            j["live"] = json!(s.vm.verif_heap().used_size());
+        }
         if !slices.is_empty() {
             let stalled = slices.iter().filter(|(_, d)| *d == 0).count();
             j["nslices"] = json!(slices.len());
